@@ -333,7 +333,8 @@ def check_type_checks(repo, rep):
     exclusion."""
     mod = repo.module(SPECS)
     gd = mod.func('FunctionDefinition.get_delegate')
-    ma = mod.func('FunctionDefinition.map_args')
+    ma = norm.inline_tail_calls(repo, mod.func(
+        'FunctionDefinition.map_args'))
     # -- get_delegate: the local checker
     checker = None
     for q, f in mod.functions.items():
